@@ -139,6 +139,10 @@ func parseCodeDirectory(blob []byte, itype uint32) (*CodeDirectory, error) {
 		// all zero
 		return nil
 	}
+	if int64(hdr.SpecialSlotCount)*int64(hashLen) > int64(hashBase) ||
+		int64(hashBase)+int64(hdr.CodeSlotCount)*int64(hashLen) > int64(len(blob)) {
+		return nil, errShort
+	}
 	dir.CodeHashes = make([][]byte, hdr.CodeSlotCount)
 	for i := 0; i < int(hdr.CodeSlotCount); i++ {
 		dir.CodeHashes[i] = slot(i)
